@@ -7,7 +7,7 @@
    groups not listed there are validated by the predicate sweep only — see DESIGN.md). *)
 From Coq Require Import Reals List Lra.
 From Manif Require Import Scalar Mat Group RInst Generic LieSpec SO2 SE2 SO3 SE3 SE23 SGal3 Rn
-  SE2Proofs SO3Proofs SE23Proofs RnProofs Adj_SO2 Adj_SE2 Adj_SO3 Adj_SE3 Adj_SE23 Adj_SGal3 Adj_Rn.
+  SE2Proofs SO3Proofs SE23Proofs RnProofs Adj_SO2 Adj_SE2 Adj_SO3 Adj_SE3 Adj_SE23 Adj_SGal3 Adj_Rn JacInv_SO3.
 Import ListNotations.
 Local Open Scope R_scope.
 
@@ -28,3 +28,15 @@ Theorem C06_adj_R7 : AdjLaws (Rn RS 7) (rn_valid 7). Proof. exact R7_adj. Qed.
 Theorem C06_adj_R8 : AdjLaws (Rn RS 8) (rn_valid 8). Proof. exact R8_adj. Qed.
 Theorem C06_adj_R9 : AdjLaws (Rn RS 9) (rn_valid 9). Proof. exact R9_adj. Qed.
 Print Assumptions C06_adj_R9.
+
+(* JacInv: SO3, generic branch, wherever the code's own formula is defined (it divides by sin theta): ljacinv is the two-sided
+   inverse of ljac and rjacinv of rjac.  (SO2 and Rn: all four are the identity matrix by definition.) *)
+Theorem C06_JacInv_SO3_left eps x y z : 0 < eps -> eps < x * x + y * y + z * z -> sin (sqrt (x * x + y * y + z * z)) <> 0 ->
+  @mmul RS (so3_ljac RS eps [x; y; z]) (so3_ljacinv RS eps [x; y; z]) = @mid RS 3 /\
+  @mmul RS (so3_ljacinv RS eps [x; y; z]) (so3_ljac RS eps [x; y; z]) = @mid RS 3.
+Proof. intros H. exact (so3_ljac_ljacinv eps H x y z). Qed.
+Theorem C06_JacInv_SO3_right eps x y z : 0 < eps -> eps < x * x + y * y + z * z -> sin (sqrt (x * x + y * y + z * z)) <> 0 ->
+  @mmul RS (so3_rjac RS eps [x; y; z]) (so3_rjacinv RS eps [x; y; z]) = @mid RS 3 /\
+  @mmul RS (so3_rjacinv RS eps [x; y; z]) (so3_rjac RS eps [x; y; z]) = @mid RS 3.
+Proof. intros H. exact (so3_rjac_rjacinv eps H x y z). Qed.
+Print Assumptions C06_JacInv_SO3_right.
